@@ -86,6 +86,7 @@ func profileByName(name string) Profile {
 		p.Invokes = [2]int{4, 10}
 	case "viz":
 		p.PVisualize, p.PGroupRes, p.PGroupPar = 0.5, 0.3, 0.3
+		p.MaxScopes = 6 // bushy trees: every scope's constructors must be in the picture
 		p.Names = []string{"", "n1", "a<b&c"}
 		p.Groups = []string{"g1", "g<3>"}
 		p.PInvalid, p.PDup = 0.15, 0.1
@@ -97,7 +98,7 @@ func profileByName(name string) Profile {
 		p.Groups = []string{"g1", "g<3>"}
 		p.Invokes = [2]int{3, 8}
 	case "pviz":
-		p.PVisualize, p.PFault, p.PDecorate, p.MinFns, p.MaxFns, p.MaxScopes = 0.6, 0.25, 0.05, 2, 9, 3
+		p.PVisualize, p.PFault, p.PDecorate, p.MinFns, p.MaxFns, p.MaxScopes = 0.6, 0.25, 0.05, 2, 9, 6
 		p.Names = []string{"", "n1", "a<b"}
 		p.Groups = []string{"g1", "g<2>"}
 		p.PGap, p.PMidInvoke, p.PDefer = 0.15, 0.3, 0.1
